@@ -25,7 +25,7 @@ def strip_s0(b):
 class C13(Engine):
     prop = "C13"
     title = "assembly is a deterministic function of the source alone"
-    quick_budget = 60
+    quick_budget = 45
     thorough_budget = 900
     rule = ("run i = valid program P (corpus instructions of 45 CPUs or data directives for the other 23, with macros/.if/.repeat/"
             ".include/.binfile) + reference execution R0 + 4-10 perturbed executions of the same P, each changing a seeded subset of: "
